@@ -10,21 +10,58 @@ from vlib import core, gen
 PROP = "C09"
 META = {
     "technique": "Coq proof: slot-ownership invariant (the location lists are a permutation of all slots) by induction over all histories, allocation choices and fault patterns; quiescence corollary; tie: differential execution against real session pairs + independent in-use==0 oracle",
-    "level_text": "C09_inv (every slot in exactly one location, for every history/allocation/fault pattern) holds; C09_full (in-use = 0 once every stream is closed on both ends) is REFUTED on the faithful model by the pinned-at-Close history (vm_compute witness, reproduced on the real code: 4096 B stay in use); C09_partial holds when every Close finds an empty pinned list (released before close) — and unconditionally once recycle() cleans the pinned list (fx = true).",
+    "level_text": "C09_inv (every slot in exactly one location, for every history/allocation/fault pattern) and C09 (once every stream is closed on both ends, nothing is in flight and the application holds nothing, every slot is free) hold unconditionally for the current tree, whose recycle() cleans the pinned list (switch sw_recycle_cleans_pinned regenerated from buffer.go on every run; Props/C09.v stops compiling if the call disappears). The former defect (pinned slices leaked at Close: 4096 B stayed in use) is repaired by a234a74; its history stays as directed case 0 of every run and as a regression Example about the old-code variant of the model.",
     "level_note": "Trusted: coqc kernel; allocation and slice sizes are inputs of the model (the allocator itself is C01/C02's subject); one label = one API call or one run of handlePolling (close() is atomic in the model: the late-data-for-a-closing-stream path is only reached through the unknown-stream branch); correspondence is sampled; event-loop delivery is waited for with generous bounds.",
 }
 
 
+SWITCH_FILE = os.path.join(core.COQ, "theories", "Gen", "SwitchC09.v")
+
+
+def strip_comments(src):
+    src = re.sub(r"/\*.*?\*/", "", src, flags=re.S)
+    return re.sub(r"//[^\n]*", "", src)
+
+
 def scan_fx():
-    """does linkedBuffer.recycle() clean the pinned list?"""
-    src = open(os.path.join(core.REPO, "buffer.go")).read()
-    m = re.search(r"func \(l \*linkedBuffer\) recycle\(\) \{.*?\n}\n", src, re.S)
+    """Translator for the one switch of Model/Accounting.v: does linkedBuffer.recycle() give the pinned list back?
+    Returns (value, description, error). Anything that is not exactly one of the two known shapes is an error."""
+    try:
+        src = open(os.path.join(core.REPO, "buffer.go")).read()
+    except OSError as ex:
+        return None, None, "cannot read buffer.go: %s" % ex
+    m = re.search(r"func \(l \*linkedBuffer\) recycle\(\) \{(.*?)\n}\n", src, re.S)
     if not m:
-        return None, "cannot find linkedBuffer.recycle in buffer.go"
-    body = m.group(0)
-    if "sliceList.popFront()" not in body:
-        return None, "linkedBuffer.recycle no longer has the shape the model mirrors"
-    return ("cleanPinnedList" in body or "pinnedList" in body), None
+        return None, None, "cannot find linkedBuffer.recycle in buffer.go"
+    body = strip_comments(m.group(1))
+    stmts = [l.strip() for l in body.splitlines() if l.strip()]
+    if "slice := l.sliceList.popFront()" not in stmts or "l.clean()" not in stmts:
+        return None, None, "linkedBuffer.recycle no longer has the pop-loop + clean() shape the model mirrors"
+    calls = stmts.count("l.cleanPinnedList()")
+    mentions = len(re.findall(r"pinned", body, re.I))
+    if calls == 1 and mentions == 1:
+        return True, "recycle() calls l.cleanPinnedList() (pinned slices go back with the buffer)", None
+    if calls == 0 and mentions == 0:
+        return False, "recycle() does not touch the pinned list (slices parked there leak at Close)", None
+    return None, None, "linkedBuffer.recycle mentions the pinned list in a way the translator does not know (%d call(s), %d mention(s))" % (calls, mentions)
+
+
+def write_switch(fx):
+    txt = ("(* GENERATED from /repo's buffer.go by props/C09.py (mechanism G for the switch of Model/Accounting.v). Do not edit. *)\n"
+           "(* true: linkedBuffer.recycle() also cleans the pinned list; false: it does not. *)\n"
+           "Definition sw_recycle_cleans_pinned : bool := %s.\n" % ("true" if fx else "false"))
+    with core.Lock("coq"):
+        old = open(SWITCH_FILE).read() if os.path.exists(SWITCH_FILE) else None
+        if old != txt:
+            with open(SWITCH_FILE, "w") as fh:
+                fh.write(txt)
+
+
+def current_switch():
+    try:
+        return "true" in open(SWITCH_FILE).read().split(":=")[1]
+    except (OSError, IndexError):
+        return None
 
 
 def b(x):
@@ -168,10 +205,18 @@ def check(run):
     data, gerr = gen.regenerate()
     if gerr:
         run.add_corr_break("G: " + gerr)
-    fx, ferr = scan_fx()
+    fx, fdesc, ferr = scan_fx()
     if ferr:
-        run.add_corr_break("G: " + ferr)
-        fx = False
+        # never a silent default: the translator failing is a broken correspondence; the model comparison below
+        # then uses the variant recorded by the last successful translation and says so
+        run.add_corr_break("G: switch translator: " + ferr)
+        fx = current_switch()
+        fdesc = "TRANSLATION FAILED (%s); variant of the last successful translation used: %s" % (ferr, fx)
+        if fx is None:
+            fx = False
+            fdesc += " (no recorded variant: old-code variant used for the comparison only)"
+    else:
+        write_switch(fx)
     run.proof = core.proof_step(PROP, run.tier)
     n = 150 if run.tier == "quick" else 5000
     cases, err = run_harness(n, run.seed, run.tier)
@@ -214,6 +259,7 @@ def check(run):
         "features": feats, "op_mix": opmix, "total_ops": nops,
         "queue_caps": sorted({c["qcap"] for c in cases}),
         "model_switch_fx_recycle_cleans_pinned": fx,
+        "model_switch_chosen_because": fdesc,
         "oracle_failures_by_signature": {s: sum(1 for f in run.oracle_failures if f["signature"] == s) for s in sorted({f["signature"] for f in run.oracle_failures})},
     })
     run.assumptions += [
